@@ -51,3 +51,24 @@ Proof.
   rewrite stream_is_map. subst tokens. cbn. now rewrite app_nil_r.
 Qed.
 Print Assumptions C08_cut_at_line_boundary.
+
+(* ---------- a cut in the middle of a line ---------- *)
+From Proofs Require Import ParsePrefix CutProofs.
+
+(* prefix stability of the parser: once a prefix of a line parses as an object, every longer text
+   with that prefix parses as the same object (what follows the first value is ignored) *)
+Theorem C08_parse_prefix_stable : forall p x t, parse_line p = Some t -> parse_line (p ++ x) = Some t.
+Proof. exact parse_line_prefix. Qed.
+Print Assumptions C08_parse_prefix_stable.
+
+(* the reader fails after a complete block A and a part p of the next line (whatever the rest x of
+   that line would have been): the failure is reported, and what has been written is the redaction
+   of A followed by nothing or by the complete, correctly redacted line - never a partial one *)
+Theorem C08_cut_mid_line : forall tb cs c enc A p x,
+  block_ok A -> ~ In nl p -> p <> [] -> (len_N p < max_token)%N ->
+  fst (run_io tb cs c enc (A ++ p) RErr (fun _ => Accept) None) = RScanErr SReadErr /\
+  exists last,
+    snd (run_io tb cs c enc (A ++ p) RErr (fun _ => Accept) None) = stream tb cs c enc A ++ last /\
+    (last = [] \/ last = emit tb cs c enc (drop_cr (p ++ x))).
+Proof. exact cut_mid_line. Qed.
+Print Assumptions C08_cut_mid_line.
